@@ -476,6 +476,9 @@ static void gen_c10(G &g) {
     if (special_crc) { c = Cfg(); c.be = BE_RS; c.k = 1; c.m = (int) g.world.range(1, 3); c.hd = c.m; c.ct = 2; }
     g.ops.push(create_op(0, c));
     int n = c.n();
+    // a second instance of the same code with checksums off (resp. on): stripes of one are rebuilt by the other
+    bool other_ct = g.world.chance(1, 4);
+    if (other_ct) { Cfg c2 = c; c2.ct = 1; g.ops.push(create_op(1, c2)); Json p1 = put_op(g, 5, 1, c2); p1.set("len", (i64) g.data.range(1, 1500)); g.ops.push(p1); }
     int objs = (int) g.plan.range(1, 2);
     for (int o = 0; o < objs; o++) {
         Json p = put_op(g, o, 0, c);
@@ -506,6 +509,7 @@ static void gen_c10(G &g) {
                 if (__builtin_popcountll(full(n) & ~(s & ~(1ULL << dev))) > tolerance(c)) j.set("dl", delivery(g, full(n) & ~(1ULL << dev), n, false));
                 const char *e4 = envs[r.below(10)];
                 if (r.chance(1, 2)) { if (e4) j.set("env", e4); else j.set("env", Json()); }
+                if (other_ct && r.chance(1, 2)) { if (r.chance(1, 2)) j.set("obj", 5); else j.set("slot", 1); }   // unchecksummed stripe rebuilt by the CRC32 instance, or the reverse
                 g.ops.push(j);
             }
         }
